@@ -400,6 +400,24 @@ def split_logic(p):
     return body[:last], body[last + 1:last + 3], body[last + 4:]
 
 
+def logic_leaves(p):
+    """the operands of a (nested) && / || expression, negations peeled"""
+    out = set()
+    work = [p]
+    while work:
+        q = work.pop()
+        while q.startswith('!(') and q.endswith(')') and q.count('(') == q.count(')'):
+            q = q[2:-1]
+        sp = split_logic(q)
+        if sp is None:
+            out.add(q)
+            if q.startswith('(') and q.endswith(')'):
+                out.add(q[1:-1])
+        else:
+            work += [sp[0], sp[2]]
+    return out
+
+
 def eval_logic(p, known):
     """value of a boolean expression given the outcomes of the branches taken: ('const', bool) | ('expr', path, negated) | None"""
     neg = False
@@ -573,19 +591,24 @@ class Tracer:
                                 val = not val
                         br = Item(k='branch', cond_ev=cev, val=val, oval=oval, path=subst_path(cpath, full), opath=cond.get('path'),
                                   fn=f['key'], fname=f['nname'], depth=d, term=cond.get('term'), loc=cond.get('loc'), block=bid)
-                        if br['path'] != subst_path(cond.get('path'), full) and split_logic(br['path'] or ''):
+                        if split_logic(br['path'] or ''):
                             # bool ntf = a || b; ... if (ntf): the operands but the last were branched on where the local was initialised: on this
                             # path the local is a constant or the last operand evaluated
+                            # outcomes of this evaluation of the operands only: walk back until an operand shows up a second time (an earlier
+                            # loop iteration) or a branch that is not an operand of this expression
                             known = {}
-                            for x in sq:
-                                if x.k == 'branch' and x.get('depth') == d and x.get('fn') == f['key']:
+                            leaves = logic_leaves(br['path'])
+                            for x in reversed(sq):
+                                if x.k == 'branch' and x.get('depth', 0) == d and x.get('fn') in (None, f['key']):
+                                    if x.path not in leaves or x.path in known:
+                                        break
                                     known[x.path] = bool(x.val)
                             res = eval_logic(br['path'], known)
                             if res is not None and res[0] == 'const':
                                 if res[1] != br['val']:
                                     continue      # infeasible: the local has the other value on this path
                             elif res is not None:
-                                tgt = next((x for x in reversed(sq) if x.get('depth') == d and x.k in ('call', 'cmp', 'read') and x.get('fn') == f['key'] and ev_form(x) == res[1]), None)
+                                tgt = next((x for x in reversed(sq) if x.get('depth', 0) == d and x.k in ('call', 'cmp', 'read') and x.get('fn') in (None, f['key']) and ev_form(x) == res[1]), None)
                                 if tgt is not None:
                                     br['path'] = res[1]; br['cond_ev'] = tgt.get('id'); cev = tgt.get('id')
                                     if res[2]:
@@ -603,6 +626,19 @@ class Tracer:
                                 # return !x;  the returned event is x (the extractor peels the negation): read the branch as a branch on x
                                 while br['path'].startswith('!(') and br['path'].endswith(')') and br['path'].count('(') == br['path'].count(')'):
                                     br['path'] = br['path'][2:-1]; br['val'] = not br['val']
+                                # return flag;  with  const bool flag = cas(...)  defined once inside the helper: the branch tests that initialiser
+                                m3_ = re.fullmatch(r'local:(\w+)(#\d+)?', br['path'] or '')
+                                hf_ = self.db.get(rv.get('fn')) if rv.get('fn') else None
+                                if m3_ is None and hf_ is not None:
+                                    # (the returned path may already be copy-propagated: look at the returned event itself)
+                                    re_ = hf_.ev(rv['ret_ev'])
+                                    m3_ = re.fullmatch(r'local:(\w+)(#\d+)?', (re_.get('path') or '')) if (re_ is not None and re_.k == 'use') else None
+                                if hf_ is not None and m3_ is not None and m3_.group(1) in bool_locals(hf_):
+                                    ipath_, iev_, ineg_ = bool_locals(hf_)[m3_.group(1)]
+                                    if iev_ is not None:
+                                        br['path'] = ipath_; br['rcond_ev'] = iev_
+                                        if ineg_:
+                                            br['val'] = not br['val']
                             elif rv is not None and rv.get('path') and split_logic(rv['path']):
                                 # return a || b;  on this path the operands but the last were branched on inside the helper: the result is a constant
                                 # or the last operand evaluated
